@@ -831,6 +831,9 @@ func UnmarshalGenericNode(value *yaml.Node) (Type, error) {
 				if err != nil {
 					return nil, err
 				}
+				if typeArg == nil {
+					return nil, parseError(v, "a type argument of a !generic type cannot be null")
+				}
 
 				simpleType.TypeArguments = append(simpleType.TypeArguments, typeArg)
 			} else {
@@ -838,6 +841,9 @@ func UnmarshalGenericNode(value *yaml.Node) (Type, error) {
 					typeArg, err := UnmarshalTypeYAML(c)
 					if err != nil {
 						return nil, err
+					}
+					if typeArg == nil {
+						return nil, parseError(c, "a type argument of a !generic type cannot be null")
 					}
 
 					simpleType.TypeArguments = append(simpleType.TypeArguments, typeArg)
